@@ -50,6 +50,8 @@ inductive Job
   | forL (c st b : Node)
   | cforL (iLoc : Loc) (hi : Int) (b : Node)
   | callFn (fid : Nat) (caps : List (Name × Loc)) (args : List Loc)
+  | guardFn (fid : Nat) (args : List Loc)                                  -- evaluate the guard of a def with the call's arguments
+  | dispatch (cands : List Nat) (args : List Loc)                          -- try the overloads of a name in order
   | catches (cs : List (Option (Name × Option TyTag) × Node)) (exc : Loc)
 deriving Repr, Inhabited
 
@@ -121,6 +123,38 @@ def addAll (s : St) : List (Name × Loc) → Option St
     | some s' => addAll s' rest
     | none => none
 
+/-! ### overloads of a script function name -/
+
+def tyOfParam (fd : FunDef) (i : Nat) : Option TyTag := (fd.ptys.getD i none)
+
+/-- `Param_Types::match`: every typed parameter gets a value of exactly that type -/
+def paramsMatch (fd : FunDef) (vals : List Val) : Bool :=
+  (List.range vals.length).all (fun i => tyMatches (tyOfParam fd i) (vals.getD i .undef))
+
+/-- `dispatch`'s ranking: the number of parameters whose declared type is not the argument's type (an untyped parameter always counts) -/
+def numDiffs (fd : FunDef) (vals : List Val) : Nat :=
+  ((List.range vals.length).filter (fun i => match tyOfParam fd i with
+    | none => true
+    | some t => !tyMatches (some t) (vals.getD i .undef))).length
+
+/-- candidates in the order `dispatch` tries them: by number of differences, registration order within -/
+def orderCands (ρ : List FunDef) (cands : List Nat) (vals : List Val) : List Nat :=
+  (List.range (vals.length + 1)).flatMap (fun i => cands.filter (fun g => match ρ[g]? with
+    | some fd => numDiffs fd vals == i
+    | none => false))
+
+def isGuarded (ρ : List FunDef) (g : Nat) : Bool := match ρ[g]? with | some fd => fd.guard.isSome | none => false
+
+/-- `Dynamic_Proxy_Function::operator==`: same arity, both unguarded, same parameter types -/
+def sameSig (a b : FunDef) : Bool :=
+  a.params.length == b.params.length && a.guard.isNone && b.guard.isNone &&
+  (List.range a.params.length).all (fun i => tyOfParam a i == tyOfParam b i)
+
+/-- `add_function` keeps the overloads of a name stably sorted: guarded ones first (`function_less_than`) -/
+def insertOverload (ρ : List FunDef) (existing : List Nat) (fid : Nat) : List Nat :=
+  if isGuarded ρ fid then existing.filter (isGuarded ρ) ++ [fid] ++ existing.filter (fun g => !isGuarded ρ g)
+  else existing ++ [fid]
+
 def run (ρ : List FunDef) : Nat → Job → St → R
   | 0, _, s => (.oof, s)
   | f + 1, .seq xs, s =>
@@ -183,6 +217,39 @@ def run (ρ : List FunDef) : Nat → Job → St → R
             match run ρ f (.node fd.body) s2 with
             | (.ret l, s3) => (.val l, s3)
             | r => r) s
+  | f + 1, .guardFn fid args, s =>
+    -- the guard is a function of the same parameters (`eval_function` again: new stack, Return_Value caught)
+    match ρ[fid]? with
+    | none => (.thrown (.evalErr .notFunction), s)
+    | some fd =>
+      match fd.guard with
+      | none => allocVal s (.bool true) true
+      | some g =>
+        withStack (fun s0 =>
+          match addAll s0 (fd.params.zip args) with
+          | none => (.thrown (.evalErr .redefined), s0)
+          | some s2 =>
+            match run ρ f (.node g) s2 with
+            | (.ret l, s3) => (.val l, s3)
+            | r => r) s
+  | f + 1, .dispatch cands args, s =>
+    -- `dispatch::dispatch`: each candidate in turn; parameter types, then the guard, decide; a guard that is false (or not a bool)
+    -- moves on to the next candidate, an exception thrown by the guard propagates
+    match cands with
+    | [] => (.thrown (.evalErr .dispatch), s)
+    | g :: rest =>
+      match ρ[g]? with
+      | none => (.thrown (.evalErr .notFunction), s)
+      | some fd =>
+        if !paramsMatch fd (args.map s.val) then run ρ f (.dispatch rest args) s
+        else if fd.guard.isNone then run ρ f (.callFn g [] args) s
+        else
+          match run ρ f (.guardFn g args) s with
+          | (.val l, s1) =>
+            (match s1.val l with
+             | .bool true => run ρ f (.callFn g [] args) s1
+             | _ => run ρ f (.dispatch rest args) s1)
+          | r => r
   | f + 1, .catches cs exc, s =>
     match cs with
     | [] => (.noMatch, s)
@@ -373,10 +440,12 @@ def run (ρ : List FunDef) : Nat → Job → St → R
        | (some cs, s1) => allocVal s1 (.fn fid cs) false true
        | (none, s1) => (.thrown (.evalErr .cantFind), s1))
     | .def_ name fid =>
-      let arity := (ρ[fid]?.map (·.params.length)).getD 0
       let existing := (s.funs.lookup name).getD []
-      if existing.any (fun g => (ρ[g]?.map (·.params.length)).getD 0 == arity) then (.thrown (.evalErr .redefined), s)
-      else allocVal { s with funs := (name, existing ++ [fid]) :: s.funs.filter (·.1 != name) } .void true
+      let clash := match ρ[fid]? with
+        | some fd => existing.any (fun g => match ρ[g]? with | some gd => sameSig gd fd | none => false)
+        | none => true
+      if clash then (.thrown (.evalErr .redefined), s)
+      else allocVal { s with funs := (name, insertOverload ρ existing fid) :: s.funs.filter (·.1 != name) } .void true
     | .call unused fe args =>
       withFnCall (fun s0 =>
         match run ρ f (.args args []) s0 with
@@ -388,9 +457,8 @@ def run (ρ : List FunDef) : Nat → Job → St → R
                 if (ρ[fid]?.map (·.params.length)) == some as.length then run ρ f (.callFn fid caps as) s3
                 else (.thrown (.evalErr .dispatch), s3)
             | .fobj name =>
-                (match ((s3.funs.lookup name).getD []).find? (fun g => (ρ[g]?.map (·.params.length)) == some as.length) with
-                 | some fid => run ρ f (.callFn fid [] as) s3
-                 | none => (.thrown (.evalErr .dispatch), s3))
+                let cands := ((s3.funs.lookup name).getD []).filter (fun g => (ρ[g]?.map (·.params.length)) == some as.length)
+                run ρ f (.dispatch (orderCands ρ cands (as.map s3.val)) as) s3
             | .builtin .print =>
                 (match as with
                  | [a] => allocVal { s3 with out := s3.out ++ [s3.val a] } .void true
